@@ -303,7 +303,9 @@ def prove(hyps, goal, timeout_ms=20000, extra_axioms=(), free_ufs_ok=False, ufs=
         universe = set()
         for f in formulas:
             ir.subterms(f, universe)
-        has_transc = any(t.op in TRANSC for t in universe)
+        has_transc = any(t.op in TRANSC and not (t.op == 'pow' and ir._num(t.args[1]) is not None and
+                                                 ir._num(t.args[1]).denominator == 1 and abs(ir._num(t.args[1])) <= 8)
+                         for t in universe)
         has_uf = any(t.op == 'uf' for t in universe)
         if not has_transc and (not has_uf or free_ufs_ok):
             mm = {'env': env}
